@@ -558,3 +558,128 @@ def run_rules(res, facts, tier):
     res.assume('C19-R6/R7 decide removal and keyed-store sites of %d owning containers (identity maps: %s); leaks through other shapes (a raw pointer member overwritten, an early return '
                'between create and store, uninstantiated template members) are not decided' % (len(own), sorted(x.split('::')[-1] for x in identity)))
     return own
+
+
+# ----------------------------------------------------------------------------------------------- R8: hand-over of a guarded object
+GUARD_TY = re.compile(r'\b(XalanMemMgrAutoPtr|XalanAutoPtr|XalanMemMgrAutoPtrArray)\b')
+
+
+def _released_members(facts):
+    """members (Class::m_x) that some library function hands to a release primitive or deletes: raw-pointer members that are owned"""
+    out = set()
+    for k in facts.astidx:
+        a = facts.ast(k)
+        if a is None or not facts.lib_path(a['file']):
+            continue
+        for x in walk(a['body']):
+            args = []
+            if x.get('k') == 'Delete':
+                args = [x.get('e')]
+            elif x.get('k') in ('Call', 'MCall') and cname(x) in REL and x.get('args'):
+                args = [x['args'][-1]]
+            for e in args:
+                for y in walk(e):
+                    if y.get('k') == 'Member' and y.get('field'):
+                        out.add(strip_t(short(y['field'])))
+    return out
+
+
+def _stores_param(facts, fn, idx, own, released, depth=0):
+    """the callee becomes an owner of its idx-th (pointer) parameter: puts it into an owning container, or assigns it to a member that the library releases"""
+    for a in (facts.asts(fn, must=False) or facts.asts(short(fn), must=False))[:2]:
+        if idx >= len(a['params']):
+            continue
+        pid = a['params'][idx]['id']
+        for x in walk(a['body']):
+            k = x.get('k')
+            if k == 'MCall' and x.get('n') in ('push_back', 'push_front', 'insert') and x.get('args'):
+                t = strip_casts(x['args'][-1])
+                o = strip_casts(x.get('obj'))
+                if isinstance(t, dict) and t.get('k') == 'Ref' and t.get('id') == pid and isinstance(o, dict) and o.get('k') == 'Member' and field_of(o) in own:
+                    return True
+            if k == 'Bin' and x['op'] == '=':
+                t, l = strip_casts(x['rhs']), strip_casts(x['lhs'])
+                if isinstance(t, dict) and t.get('k') == 'Ref' and t.get('id') == pid and isinstance(l, dict) and l.get('k') == 'Member' and strip_t(short(l.get('field') or '')) in released:
+                    return True
+            if depth < 2 and k in ('Call', 'MCall') and x.get('fn'):
+                for j, a0 in enumerate(x.get('args', [])):
+                    t = strip_casts(a0)
+                    if isinstance(t, dict) and t.get('k') == 'Ref' and t.get('id') == pid and _stores_param(facts, x['fn'], j, own, released, depth + 1):
+                        return True
+    return False
+
+
+def r8_handover(res, facts, own):
+    r = res.rule('C19-R8', 'hand-over of a guarded object: when guard.get() is given to a call that keeps the pointer (a container insertion, or a function that stores its parameter), '
+                 'guard.release() follows on every path with no call in between — while both the guard and the new owner hold the object, an exception destroys it twice', floor=4)
+    n = 0
+    released = _released_members(facts)
+    for k in facts.astidx:
+        a = facts.ast(k)
+        if a is None or not facts.lib_path(a['file']):
+            continue
+        guards = {}
+        for x in walk(a['body']):
+            if x.get('k') == 'Decl':
+                for v in x.get('vars', []):
+                    if GUARD_TY.search(v.get('ty') or ''):
+                        guards[v['id']] = v['n']
+        if not guards:
+            continue
+        hand = []
+        for c in calls(a['body']):
+            if c.get('k') not in ('Call', 'MCall'):
+                continue
+            for j, a0 in enumerate(c.get('args', [])):
+                t = strip_casts(a0)
+                if isinstance(t, dict) and t.get('k') == 'MCall' and t.get('n') == 'get':
+                    o = strip_casts(t.get('obj'))
+                    if isinstance(o, dict) and o.get('k') == 'Ref' and o.get('id') in guards:
+                        co = strip_casts(c.get('obj')) if c.get('k') == 'MCall' else None
+                        direct = c.get('k') == 'MCall' and c.get('n') in ('push_back', 'insert', 'push_front') and isinstance(co, dict) and co.get('k') == 'Member' and field_of(co) in own
+                        if direct or (c.get('fn') and _stores_param(facts, c['fn'], j, own, released)):
+                            hand.append((c, o['id']))
+        if not hand:
+            continue
+        cfg = CFG(a)
+        fn = strip_t(short(facts.name[k]))
+        for c, gid in hand:
+            n += 1
+            hn = None
+            for nd in cfg.nodes:
+                if nd.ast is not None and any(x is c for x in walk(nd.ast)):
+                    hn = nd
+            site = '%s: %s handed to %s' % (fn, guards[gid], (c.get('n') or callee(c).split('::')[-1]))
+            if hn is None:
+                continue
+
+            def is_release(nd):
+                return nd.ast is not None and any(x.get('k') == 'MCall' and x.get('n') in ('release', 'releasePtr') and isinstance(strip_casts(x.get('obj')), dict) and strip_casts(x['obj']).get('id') == gid
+                                                  for x in walk(nd.ast))
+            problem = None
+            seen = set()
+            work = list(hn.succ)
+            while work and problem is None:
+                nd = work.pop()
+                if nd.id in seen:
+                    continue
+                seen.add(nd.id)
+                if is_release(nd):
+                    continue
+                if nd is cfg.exit or nd is cfg.throw:
+                    problem = 'a path leaves the function without %s.release(): the guard destroys the object its new owner still holds' % guards[gid]
+                    break
+                if nd.ast is not None and nd.kind in ('stmt', 'cond'):
+                    cs = [x for x in calls(nd.ast) if x.get('k') in ('Call', 'MCall', 'Ctor') and not (x.get('k') == 'Ctor' and not x.get('args'))]
+                    cs = [x for x in cs if (x.get('n') or callee(x).split('::')[-1]) not in ('get', 'c_str', 'length', 'size', 'empty')]
+                    if cs:
+                        problem = 'between the hand-over and %s.release() the function calls %s: if that throws, the guard and the new owner both destroy the object' % (guards[gid], pp(cs[0])[:70])
+                        break
+                work.extend(nd.succ)
+            if problem:
+                r.violation(site, problem, common.file_line(a, c))
+            else:
+                r.ok(site, 'release() follows immediately')
+    if n < 4:
+        raise AnalysisBroken('only %d guarded hand-over sites into owners found (6 confirmed by hand)' % n)
+    return r
